@@ -132,9 +132,31 @@ func Sample(v any) {
 	samples = append(samples, b)
 }
 
+var (
+	pendingInconclusive string
+	inconclusives       []string
+)
+
+// MarkInconclusive is called by a watchdog whose wait expired for a reason that is NOT the property being
+// violated (e.g. a write that did not finish in time but is not blocked on the writer lock). The next Fail
+// call is then recorded as inconclusive instead of as a violation: a time budget never decides a verdict.
+func MarkInconclusive(reason string) {
+	mu.Lock()
+	pendingInconclusive = reason
+	mu.Unlock()
+}
+
 // Fail records a failing case. The last call wins, which is the shrunk case
 // when rapid drives the property (rapid re-runs the minimal case last).
 func Fail(kind string, c any, format string, args ...any) {
+	mu.Lock()
+	if pendingInconclusive != "" {
+		inconclusives = append(inconclusives, pendingInconclusive+": "+fmt.Sprintf(format, args...))
+		pendingInconclusive = ""
+		mu.Unlock()
+		return
+	}
+	mu.Unlock()
 	b, err := json.Marshal(c)
 	if err != nil {
 		b, _ = json.Marshal(fmt.Sprintf("%+v", c))
@@ -191,7 +213,7 @@ func Finish(code int) int {
 	if lastFail != nil {
 		dir := os.Getenv("VERIF_REPLAY_DIR")
 		if dir == "" {
-			dir = filepath.Join("/verif/replays", propID)
+			dir = filepath.Join(VerifRoot(), "replays", propID)
 		}
 		_ = os.MkdirAll(dir, 0o755)
 		body, _ := json.MarshalIndent(map[string]any{
@@ -210,6 +232,15 @@ func Finish(code int) int {
 		if code == 0 {
 			code = 1
 		}
+	}
+	if lastFail == nil && len(inconclusives) > 0 {
+		for _, m := range inconclusives {
+			if len(m) > 600 {
+				m = m[:600]
+			}
+			fmt.Printf("INCONCLUSIVE-WATCHDOG property=%s %s\n", propID, m)
+		}
+		code = 2
 	}
 	sh.ExitCode = code
 	if out := os.Getenv("VERIF_OUT"); out != "" {
